@@ -487,7 +487,7 @@ void cmi_dataset_histogram_fill(struct cmi_dataset_histogram *hp,
     /* Distribute x-values to bins */
     for (uint64_t ui = 0u; ui < n; ui++) {
         /* In what bin does this x-value belong? */
-        uint16_t bin;
+        unsigned bin;
         if (xa[ui] < hp->low_lim) {
             bin = 0u;
         }
@@ -495,7 +495,7 @@ void cmi_dataset_histogram_fill(struct cmi_dataset_histogram *hp,
             bin = hp->num_bins - 1u;
         }
         else {
-            bin = 1u + (uint16_t)((xa[ui] - hp->low_lim) / hp->binsize);
+            bin = 1u + (unsigned)((xa[ui] - hp->low_lim) / hp->binsize);
         }
 
         /* Add it to that bin and note the high-water mark */
@@ -584,7 +584,7 @@ void cmb_dataset_histogram_print(const struct cmb_dataset *dsp,
      * an unsigned, and converting it is undefined (and traps in a process) */
     const double datarange = ceil(high_lim - low_lim);
     if (datarange < (double)num_bins) {
-        num_bins = (datarange >= 1.0) ? (uint16_t)datarange : 1u;
+        num_bins = (datarange >= 1.0) ? (unsigned)datarange : 1u;
     }
 
     struct cmi_dataset_histogram *hp = NULL;
